@@ -74,6 +74,10 @@ class Subject(Observable[_T], Observer[_T], abc.SubjectBase[_T]):
 
         with self.lock:
             self.check_disposed()
+            if not self.is_stopped:
+                # Stored before the stopped flag is raised, so that a subscriber
+                # arriving concurrently never sees "stopped without an error".
+                self.exception = error
         super().on_error(error)
 
     def _on_error_core(self, error: Exception) -> None:
